@@ -55,13 +55,46 @@ def gen_unit(rng):
         args[i + 1] = "(push [] .)"
     S = rng.randint(0, 3)
     T = rng.randint(0, 5)
-    return {"prefix": recs, "args": args, "pattern": pat, "S": S, "T": T, "transport": rng.choice(["stdin", "stdin", "fifo"])}
+    mode = "qualifying"
+    r = rng.random()
+    if r < 0.2:
+        # nothing after the prefix ever produces a row: the filter passes only the prefix records (s < 0; the tail counts from 0)
+        mode = "filtered-tail"
+        args = [a for a in args]
+        if "--split-by" in args:
+            i = args.index("--split-by")
+            del args[i:i + 2]
+            pat = [p for p in pat if p != "split"]
+        if "--filter" in args:
+            i = args.index("--filter")
+            del args[i:i + 2]
+        args += ["--filter", "(< .s 0)"]
+        pat = [p for p in pat if p != "filter"] + ["filter", "dead-tail"]
+    elif r < 0.35:
+        # every tail row is a duplicate: only .k is selected, then --unique (the running counter is not part of the row)
+        mode = "duplicate-tail"
+        args = ["--select", ".k=k", "--unique"] + (["--set", "one=1"] if rng.random() < 0.3 else [])
+        pat = ["select1", "unique", "dead-tail"]
+    if mode != "qualifying":
+        if len(recs) < 2:
+            recs = records.gen_records(rng, n=rng.choice((2, 3, 5, 8)))
+            for i, r in enumerate(recs):
+                r["s"] = -1 - i
+        # the last wanted row must come from the prefix (otherwise jawk may legitimately read for ever)
+        need = rng.randint(1, len(recs) if mode == "filtered-tail" else 2)
+        S = rng.randint(0, need - 1)
+        T = need - S
+    sep = rng.choice(["\n", "\n", " ", "", "\t", "\r\n"])
+    return {"prefix": recs, "args": args, "pattern": pat, "S": S, "T": T, "transport": rng.choice(["stdin", "stdin", "fifo"]),
+            "mode": mode, "sep": sep}
 
 
 def run_unit(ctx, unit):
     st = ctx.stats
     recs = unit["prefix"]
-    parts = [jm.dumps(r).encode() + b"\n" for r in recs]
+    sep = unit.get("sep", "\n").encode()
+    TAIL_POST = b"}" + sep
+    parts = [jm.dumps(r).encode() + sep for r in recs]
     prefix = b"".join(parts)
     ends = []
     pos = 0
@@ -149,6 +182,8 @@ def run_unit(ctx, unit):
     st.see("overshoot_bytes_bucket", 0 if over <= 1 else 1 if over <= 64 else 2 if over <= 8192 else 3)
     st.count("overshoot_le_1" if over <= 1 else "overshoot_gt_1")
     st.see("nontrivial", (tuple(unit["pattern"]), S, T, unit["transport"]))
+    st.count("mode_" + unit.get("mode", "qualifying"))
+    st.count("separator_" + {"\n": "lf", " ": "space", "": "none", "\t": "tab", "\r\n": "crlf"}[unit.get("sep", "\n")])
     st.count("bytes_pulled_total", pulled)
 
 
@@ -168,7 +203,7 @@ def worker(ctx):
 def run(env):
     quick = env.tier == "quick"
     stats = core.run_workers(__name__, "worker", PROP, env.tier, env.seed, env.driver, env.hooks_on,
-                             45 if quick else 500, {"units_per_worker": 120 if quick else 4000})
+                             45 if quick else 500, {"units_per_worker": 400 if quick else 6000})
     return core.finish(PROP, env.tier, env.seed, LEVEL, stats, env.t0, RULE, min_conclusive=300 if quick else 5000,
                        assumptions=["termination on unbounded input is restated as: go returns Ok before the endless reader's cap, having pulled at most 64 KiB past the deciding value (FIFO: plus pipe buffer and BufReader)",
                                     "the deciding value is located with the same build's unlimited runs on finite prefixes (differential)"])
